@@ -28,7 +28,8 @@ from simkit.runner import Result
 PROPERTY = 'C14'
 LEVEL = 'exploration'
 RULE = (
-    'cases = histories of save / load / list / list(pid) / delete / delete_all / advance (the live processes run on the '
+    'cases = histories of save / load / list / list(pid) / delete / delete_all / runloaded (a process recreated from the '
+    'loaded checkpoint runs for a while) / advance (the live processes run on the '
     'simulated loop) / restart (a new PicklePersister on the same directory) over 2-3 live processes and up to 3 tags, pids '
     'and tags of one kind per history (ints | UUIDs | separator-free strings, tag None included); in the fault '
     'configuration some saves get an injected open() error or a torn write (n bytes then OSError).  Non-trivial = the '
@@ -44,7 +45,7 @@ COMPONENTS = {
 }
 ASSUMPTIONS = ['pids and tags of one kind per history, strings without the "." separator (as the property quantifies)',
                'a missing key may raise different exception types in the two persisters (compared as "raises")']
-EXPECTED_COUNTERS = ['op:save', 'op:load', 'op:list', 'op:listp', 'op:del', 'op:delall', 'op:advance', 'op:restart',
+EXPECTED_COUNTERS = ['op:runloaded', 'probe:ran_process_from_loaded_checkpoint', 'op:save', 'op:load', 'op:list', 'op:listp', 'op:del', 'op:delall', 'op:advance', 'op:restart',
                      'probe:load_after_progress', 'probe:load_after_overwrite', 'probe:delete_absent', 'probe:load_absent',
                      'fault:open_error', 'fault:torn_write', 'kind:int', 'kind:uuid', 'kind:str']
 PROGRAM_CFG = {'max_steps': 4, 'p_async': 0.9, 'max_awaits': 2, 'rets': ['value', 'stop', 'raise'],
@@ -94,6 +95,8 @@ def random_case(rng, tier):
             ops.append(['del', proc_i, tag_i])
         elif roll < 0.83:
             ops.append(['delall', proc_i])
+        elif roll < 0.89:
+            ops.append(['runloaded', proc_i, tag_i, rng.randint(2, 8)])
         elif roll < 0.95:
             ops.append(['advance', rng.randint(1, 6)])
         else:
@@ -360,6 +363,38 @@ def run(case):
                                 break
                 for key in progressed_since_save:
                     progressed_since_save[key] = True
+            elif name == 'runloaded':
+                # a process recreated from a loaded checkpoint runs for a while: the stored snapshot must not notice
+                pid, tag = pids[op[1]], tags[op[2]]
+                if (pid, tag) in model and (pid, tag) not in suspect:
+                    result.counters['probe:ran_process_from_loaded_checkpoint'] += 1
+                    touched = True
+                    for which, persister in (('memory', memory), ('pickle', pickles)):
+                        status, bundle = _call(persister.load_checkpoint, pid, tag)
+                        if status != 'ok':
+                            continue
+                        status, loaded = _call(bundle.unbundle, plumpy.LoadSaveContext(loop=loop))
+                        if status != 'ok':
+                            result.violate('load_mismatch', f'{which}:unbundle', f'{which}: the loaded checkpoint cannot be '
+                                                                                 f'unbundled: {loaded!r}')
+                            continue
+                        loaded._sim_label = f'loaded-{op_index}-{which}'
+                        if not loaded.has_terminated():
+                            loop.create_task(loaded.step_until_terminated())
+                            with loop.running():
+                                for _ in range(op[3]):
+                                    if loaded.paused:
+                                        loaded.play()
+                                    if not loop.step_once():
+                                        if not loaded.has_terminated() and loaded.state.value == 'waiting':
+                                            loaded.resume(['rv', 0, 0])
+                                        else:
+                                            break
+                            if not loaded.has_terminated():
+                                loaded.kill('done with the loaded copy')
+                            loop.run_until_quiescent() if False else None
+                    for key in progressed_since_save:
+                        progressed_since_save[key] = True
             elif name == 'restart':
                 pickles = plumpy.PicklePersister(directory)
             else:
